@@ -3,14 +3,20 @@ NOTES = ("All checks are driven by /verif/check (python3, stdlib). Specification
          "/verif/harness (binary gv) and the goml CLI are rebuilt from /repo's working tree on every run with --cfg goml_verif. "
          "Exit 0 = held (KNOWN-FINDING lines for defects listed in known_findings.json), 1 = VIOLATION, 2 = tool error.")
 ENGINES = [
-    {"name": "tlc", "path": "/verif/spec", "serves_properties": ["C01", "C02", "C05", "C06", "C07", "C08", "C09", "C10", "C11", "C12", "C13", "C14", "C15", "C16", "C17", "C18", "C19"],
+    {"name": "tlc", "path": "/verif/spec", "serves_properties": ["C01", "C02", "C05", "C06", "C07", "C08", "C09", "C10", "C11", "C12", "C13", "C14", "C15", "C16", "C17", "C18", "C19", "C03"],
      "kind_free_text": "TLA+ specifications model-checked / simulated by TLC 1.8"},
-    {"name": "gv", "path": "/verif/harness", "serves_properties": ["C01", "C02", "C05", "C06", "C07", "C08", "C09", "C10", "C11", "C12", "C13", "C14", "C15", "C16", "C17", "C18", "C19"],
+    {"name": "gv", "path": "/verif/harness", "serves_properties": ["C01", "C02", "C05", "C06", "C07", "C08", "C09", "C10", "C11", "C12", "C13", "C14", "C15", "C16", "C17", "C18", "C19", "C03"],
      "kind_free_text": "Rust conformance harness with path dependencies on /repo/crates/*, and the goml CLI built from /repo"},
 ]
 PENDING = "check not built yet in this round (planned in DESIGN.md §4); not a claim that the technique cannot apply"
 NOT_APPLICABLE = {p: PENDING for p in ["C%02d" % i for i in range(1, 21)]}
 CHECKS = {
+    "C03": {
+        "level": "model_checking",
+        "technique": "IRTyping.tla is the typing judgment of goml's intermediate representations (scoping, signatures, constructors, field reads, operators, branches, closedness after mono, ANF immediacy); the Core/Mono/Lift/ANF terms the real compiler produced for every accepted program are exported structurally and TLC evaluates the judgment on them (IRTypingCheck.tla); ill-typed variants with one injected type error must be rejected by the typer",
+        "text": "Every program the compiler accepts - the recorded corpus, all generated families of the other checks (about 1600 programs in quick) and a family of generic functions, closures over type parameters, generic containers, generic inherent/trait methods and array/vec/ref builtins at five instantiation types - is compiled; all four IRs with their environments (struct/enum definitions, function signatures, trait methods, impls) are exported node by node with the type each node carries and IRTyping.tla is evaluated on them by TLC: every variable use in scope of a binder of the same type or an instance of a function signature, every call / constructor / field read / projection / operator / branch / arm consistent, no type parameter, type application or inference variable after mono, no wildcard array length, ANF operands immediate. The judgment's deliberate deviations from a textbook reading are named in the spec (let annotations, lifted apply callee annotation, the diverging `missing` helper, Core instance names). From each accepted generated program ill-typed variants are derived (a value of another type - literals, comparisons, arithmetic, lambdas - in any slot whose type is fixed by a declaration; wrong arity; unknown field in reads and literals; array literal longer/shorter than annotated; dropped payload; literal pattern of another type): each must be rejected with a typer diagnostic. A self-test corrupts recorded IR in seven ways and requires the judgment to reject each.",
+        "note": "The ill-typed variants are ill-typed by construction (declared slot types), not by a second TLA+ typing judgment of the source language; accepted variants are additionally put through IRTyping. Programs whose IR nests deeper than the JSON reader's limit (255) after let-chain flattening would be skipped and listed (none today).",
+    },
     "C19": {
         "level": "model_checking",
         "technique": "Names.tla generates the entity universe and states injectivity / legality / non-capture of name tables; the real naming functions are applied to the universe and the recorded table validated by TLC (NamesCheck.tla); alpha-renaming of one base program to every hostile identifier validated GomlSem vs GoSem + GoStatic",
